@@ -130,7 +130,7 @@ def is_instance(obj: Any, type_qname: str, parser: ta.XPathParserType | None = N
         except KeyError:
             pass
 
-    raise ElementPathKeyError("unknown type %r" % type_qname)
+    raise ElementPathKeyError("unknown type %r" % type_qname, code='err:XPST0051')
 
 
 def is_sequence_type(value: str, parser: ta.XPathParserType | None = None) -> bool:
